@@ -10,6 +10,7 @@ from yaql.language import contexts as yctx
 from yaql.language import exceptions as yexc
 from yaql.language import runner as yrunner
 from yaql.language import specs as yspecs
+from yaql.language import yaqltypes as yt
 
 from vmon import families as fam
 from vmon import hooks
@@ -494,6 +495,7 @@ def run_shard(spec, rec):
     rng = rng_for(spec['seed'], 'c05', spec['name'])
     r = Runner(rec)
     try:
+        expression_typed(r, rec, rng, max(spec['families'] // 10, 20))
         for i in range(spec['families']):
             if i % 6 == 5:
                 layers, exclusive, call = gen_kw_family(rng)
@@ -525,6 +527,71 @@ def run_shard(spec, rec):
                             'exclusive': exclusive, 'call': call.desc(), 'text': r.render(call)[0]})
     finally:
         r.close()
+
+
+EXPR_FORMS = ['g(1)', '1 + 2', '-$x', 'not $x', '[1, 2]', '{a => 1}', '$x', '$', 'abc', '5', "'s'", 'null', 'true', '$x[0]', '$x.y',
+              'g(1).h()', '(1)', '$x + $y * 2', '1.5']
+
+
+def expression_typed(runner, rec, rng, count):
+    """parameters declared YaqlExpression(<node classes>): the argument's syntax tree is handed over unevaluated, and
+    the type filter accepts it exactly when the class of its root node is one of the declared classes (subclasses of a
+    declared class are other kinds of expression)"""
+    from yaql.language import expressions as yexpr
+    classes = {n: getattr(yexpr, n) for n in ('Function', 'BinaryOperator', 'UnaryOperator', 'ListExpression', 'MapExpression',
+                                               'GetContextValue', 'Constant', 'KeywordConstant', 'IndexExpression', 'Expression')}
+    eng = runner.eng
+    for i in range(count):
+        k = rng.choice((1, 2, 2, 3))
+        decls = []
+        for j in range(k):
+            decls.append(tuple(sorted(rng.sample(sorted(set(classes) - {'Expression'}), rng.choice((1, 1, 2))))))
+        layered = rng.random() < 0.4 and k > 1
+        ctx = runner.base.create_child_context()
+        layer_ctxs = []
+        for j, decl in enumerate(decls):
+            def payload(e, _tag='E%d' % j):
+                return _tag
+            payload = yspecs.parameter('e', yt.YaqlExpression(tuple(classes[c] for c in decl)))(payload)
+            if layered and j > 0:
+                ctx = ctx.create_child_context()
+            ctx.register_function(payload, name='f')
+            layer_ctxs.append(ctx)
+        form = rng.choice(EXPR_FORMS)
+        text = 'f(%s)' % form
+        try:
+            st = eng(text)
+        except Exception as e:
+            rec.inconc('expression-typed call %r does not parse: %s' % (text, e))
+            continue
+        node = yq.unwrap(st.expression).args[0]       # (a parenthesised argument is a Wrap node: another kind of expression)
+        actual = type(node).__name__
+        matches = [j for j, decl in enumerate(decls) if actual in decl]
+        if layered:
+            # nearest layer first: overload j lives in layer j (0 = farthest), the first layer with a match wins
+            want = ('ran', 'E%d' % max(matches)) if matches else ('error', 'no-match')
+        else:
+            want = ('ran', 'E%d' % matches[0]) if len(matches) == 1 else (('error', 'ambiguous') if matches else ('error', 'no-match'))
+        c = ctx.create_child_context()
+        c['x'] = [1]
+        c['y'] = 2
+        try:
+            got = ('ran', st.evaluate(context=c))
+        except (yexc.NoMatchingFunctionException, yexc.NoMatchingMethodException):
+            got = ('error', 'no-match')
+        except (yexc.AmbiguousFunctionException, yexc.AmbiguousMethodException):
+            got = ('error', 'ambiguous')
+        except Exception as e:
+            got = ('error', 'other:' + type(e).__name__)
+        rec.count('calls')
+        rec.count('families')
+        rec.count('families.expression-typed')
+        rec.case(('expr-typed', text, repr(decls), layered), nontrivial=True)
+        if got != want:
+            rec.violation('resolution-differs-from-rules:expression-typed:want=%s:got=%s' % (want[1] if want[0] == 'error' else 'ran', got[1] if got[0] == 'error' else 'ran'),
+                          '%s (root node %s) against overloads declared %r (%s): the rules give %r, yaql gave %r' % (
+                              text, actual, decls, 'one per layer' if layered else 'one layer', want, got),
+                          {'kind': 'expr-typed', 'text': text, 'decls': [list(d) for d in decls], 'layered': layered})
 
 
 def spec_from_desc(d):
